@@ -132,7 +132,9 @@ Inductive qinput : Type :=
   | DeclRaw (d : list (list Z))       (* normalization = 'raw' : integer counts *)
   | DeclNorm (d : list (list R)).     (* normalization = 'log2CPM' : used as is *)
 
-(* assemble_query_data, query side, for every parent: full_query_data.downsample_genes(query_markers) *)
+(* assemble_query_data, query side, for every parent: full_query_data.downsample_genes(query_markers).
+   (Its later test `query_data.normalization != "log2CPM"` cannot fire here: both branches of
+   prepare_query hand over a matrix tagged Log2CPM, and downsample_genes keeps the tag.) *)
 Definition node_matrices (m : cbg R) (lists : list (list Z)) : result (list (list (list R))) :=
   res_all (map (fun nm => bind (downsample_genes m nm) (fun r => Ok (c_data r))) lists).
 
